@@ -68,6 +68,19 @@ theorem harvest_step_is_first_end_condition_day (hw : WF c) (hr : Reach c ev s) 
 theorem every_completed_season_has_a_row (hv : Valid c) (hr : Reach c ev s) (k : Nat)
     (hk : (k : Int) < s.season) : ∃ t, ((k : Int), t) ∈ s.summary := season_harvested hv hr k hk
 
+/-- After the summary row of season `k` has been written no later simulated day of that season is a
+growing day (`growing_season = False`, `dap = 0`): the row closes the season. -/
+theorem no_growing_day_after_summary_row (hw : WF c) (hr : Reach c ev s) {k : Int} {t : Nat}
+    (h : (k, t) ∈ s.summary) :
+    ∀ r ∈ s.rows, r.season = k → t < r.t → r.gs = false ∧ r.dap = 0 :=
+  no_growing_day_after_summary hw hr h
+
+/-- A growing day lies strictly before its season's latest harvest date (`t + 1 ≤ harvest[season]`),
+so the harvest step of a summary row — at the latest the day before that date — is the last
+possible growing day. -/
+theorem growing_day_before_latest_harvest_date (hw : WF c) (hr : Reach c ev s) :
+    ∀ r ∈ s.rows, r.gs = true → (r.t : Int) + 1 ≤ c.hv r.season.toNat := gs_before_harvest hw hr
+
 end summary
 
 /-! ## (b) seasonal irrigation = sum of the daily column -/
@@ -291,14 +304,45 @@ variable {α : Type} [Field α] [LinearOrder α] [IsStrictOrderedRing α]
 the seasonal irrigation `IrrTot` equals the sum of the daily irrigation column of the `water_flux`
 table over the rows of that season up to (and including) the row's harvest step.  Premises: a
 `Valid` clock, the initial season flags cleared, both initial counters 0.
-(With the off-season simulated, rows of the same season *after* the harvest step can carry
-irrigation: `RunLiftExample.post_harvest_irrigation`.) -/
+(Corollary of `run_seasonal_irrigation_is_sum_over_whole_season`: the rows of the same season
+*after* the harvest step carry no irrigation, `run_no_growing_day_after_harvest`.) -/
 theorem run_seasonal_irrigation_is_sum_of_daily_column (hv : Valid cfg.clock) (hi : InitOK cfg)
     (h0 : InitIrr0 cfg) (hr : RunReach F T cfg s) :
     ∀ x ∈ s.summaryTable,
       x.irrTot = ((s.fluxTable.filter
         (fun f => decide (f.season = x.season) && decide (f.tsc ≤ x.tsc))).map (·.irrDay)).sum :=
+  run_summary_irrigation_upto hv hi h0 hr
+
+/-- **Run level (a), whole season.** For every row of the summary table of every reachable state of
+every run, the seasonal irrigation `IrrTot` equals the sum of the daily irrigation column of the
+`water_flux` table over **all** rows of that season (with the off-season simulated: including the
+fallow days between the harvest and the next planting date, which carry the same season counter).
+Premises: a `Valid` clock, the initial season flags cleared, both initial counters 0. -/
+theorem run_seasonal_irrigation_is_sum_over_whole_season (hv : Valid cfg.clock) (hi : InitOK cfg)
+    (h0 : InitIrr0 cfg) (hr : RunReach F T cfg s) :
+    ∀ x ∈ s.summaryTable,
+      x.irrTot = ((s.fluxTable.filter (fun f => decide (f.season = x.season))).map
+        (·.irrDay)).sum :=
   run_summary_irrigation hv hi h0 hr
+
+/-- **Run level (a).** After a season's summary row has been written no later recorded day of that
+season is a growing-season day: `growing_season = False`, `IrrDay = 0`, `dap = 0` (both tables),
+no transpiration, canopy cover, biomass or yield — nothing that happens after the harvest is
+missing from the summary.  Premises: a well-formed clock, the initial season flags cleared. -/
+theorem run_no_growing_day_after_harvest (hw : WF cfg.clock) (hi : InitOK cfg)
+    (hr : RunReach F T cfg s) :
+    ∀ x ∈ s.summaryTable, ∀ d ∈ s.daysRev, d.D.season = x.season → x.tsc < d.D.tsc →
+      d.D.gs = false ∧ d.r.flux.irrDay = 0 ∧ d.r.flux.dap = 0 ∧ d.r.growth.dap = 0 ∧
+        d.r.flux.tr = 0 ∧ d.r.growth.cc = 0 ∧ d.r.growth.biomass = 0 ∧ d.r.growth.dryYield = 0 ∧
+        d.r.growth.freshYield = 0 ∧ d.r.storage.gs = false :=
+  Aqua.run_no_growing_day_after_harvest hw hi hr
+
+/-- … in terms of the rows of the `water_flux` table. -/
+theorem run_no_irrigation_after_harvest (hw : WF cfg.clock) (hi : InitOK cfg)
+    (hr : RunReach F T cfg s) :
+    ∀ x ∈ s.summaryTable, ∀ f ∈ s.fluxTable, f.season = x.season → x.tsc < f.tsc →
+      f.irrDay = 0 ∧ f.dap = 0 ∧ f.tr = 0 :=
+  Aqua.run_no_irrigation_after_harvest hw hi hr
 
 /-- **Run level (b).** Every summary row repeats the yields of the `crop_growth` row of its harvest
 step, and that is the only `crop_growth` row with that step. -/
